@@ -167,6 +167,9 @@ def run(ctx):
     from . import c10
     reuse(ctx, lambda c: c10.own_rule(c, fields=c10.DENSITY_FIELDS), ("C10.own",), "C18own", "ownership rule shared with C10: the history stores the population objects themselves, so an in-place write into "
           "a caller's array rewrites a population that was already recorded")
+    reuse(ctx, c11.run, ("C11.restore",), "C18res", "restore rule shared with C11: the record of a resumed run starts with the checkpointed history; if the restore replaces it "
+          "(a default, an `or` on an object that can be falsy), the entries of the iterations before the interruption are gone",
+          only=lambda f: f.key.endswith("| history"))
     reuse(ctx, c11.run, ("C11.cut",), "C18cut", "cut-point rule shared with C11: a checkpoint taken before the iteration's last history append restores a history that lacks that entry")
     reuse(ctx, c11.run, ("C11.snapshot",), "C18ckpt", "snapshot rule shared with C11: a resumed run's history starts from what the checkpoint recorded")
 
@@ -263,6 +266,9 @@ MUTANTS = [
 MUTANTS += [
     M("history created once per sampler object", _B, "iterations = 0\n            self.history = SMCHistory()", "iterations = 0", ("C18.reset", "C18.init")),
     M("checkpoint shares the diagnostic lists", _B, "history_copy = copy.deepcopy(self.history)", "history_copy = copy.copy(self.history)\n        history_copy.sample_history = list(self.history.sample_history)", "C18ckpt"),
+]
+MUTANTS += [
+    M("restored history replaced by a fresh one", "src/aspire/samplers/smc/base.py", "self.history = copy.deepcopy(state.get(\"history\", SMCHistory()))", "self.history = SMCHistory()", "C18res.restore"),
 ]
 NEUTRALS = [
     __import__("aspire_sa.rules.smcloop", fromlist=["HELPER_NEUTRAL"]).HELPER_NEUTRAL,
